@@ -216,6 +216,33 @@ func (p c05) Exec(c *sim.Case, env *Env) []sim.Violation {
 		return fail("save-vs-tobytes", "save-then-save", why)
 	}
 	env.Stats.ProbeN("evaluations", 3)
+	// ---- the same after late edits of parts other than the body (whatever ToBytes or Save remember from
+	//      earlier calls must not make them disagree now)
+	for i, edit := range []func() error{
+		func() error { return d.SetTitle(fmt.Sprintf("late title %d", c.Run)) },
+		func() error { return d.SetPageMargins(11, 12, 13, 14) },
+		func() error { d.GetStyleManager().CreateCustomStyle("LateStyle", "late", "paragraph", "Normal"); return nil },
+	} {
+		if c.C("offset_set") != 0 {
+			break
+		}
+		if sig, pn := Guard(func() { _ = edit() }); pn {
+			return fail("panic", sig, "a late edit panicked")
+		}
+		tb, err1 := d.ToBytes()
+		lp := filepath.Join(dir, fmt.Sprintf("late%d.docx", i))
+		err2 := d.Save(lp)
+		sb, _ := os.ReadFile(lp)
+		os.Remove(lp)
+		env.Stats.Probe("evaluations")
+		if err1 != nil || err2 != nil {
+			continue
+		}
+		if ok, why := sameParts(sb, tb); !ok {
+			return fail("save-vs-tobytes", "after-late-edit", fmt.Sprintf("after an edit that follows earlier ToBytes/Save calls the two entry points disagree: %s", why))
+		}
+		ref, fb = tb, sb
+	}
 	L := int64(len(fb))
 	env.Log.Event("L=%d parts=%d", L, bytes.Count(fb, []byte("PK\x01\x02")))
 	os.Remove(ff)
